@@ -160,6 +160,8 @@ class Contract:
         """one contract per lane post-condition (multiplicative obligations are discharged one lane per solver call);
         partial-domain division: one contract per constant divisor"""
         import copy
+        if getattr(self, 'denom', None):
+            return denom_variants(self, tier)
         if getattr(self, 'div_consts', None):
             out = []
             for v, reqs in self.div_consts:
@@ -1095,6 +1097,162 @@ def f_frexp(c):
     return k
 
 
+
+# --------------------------------------------------------------------------------------------
+# C14 / C15  Denominators.  The harness builds the denominator by running the REAL constructor on a divisor d, then
+# calls the function under contract; div's post-condition is stated against the divisor the object reports (field d).
+# 8-bit element types: all (n, d).  Wider types: PARTIAL DOMAIN -- one obligation per divisor of a lattice, all n.
+# --------------------------------------------------------------------------------------------
+def denom_info(ct, S):
+    m = re.match(r'^Denom_(\w+)$', ct)
+    if not m or ct not in S:
+        return None
+    inner = m.group(1)
+    if inner in ELEM:
+        return T(ELEM[inner][2], S), inner, None
+    vt = T(inner, S)
+    if vt.kind == 'vec':
+        return vt, vt.elem, inner
+    return None
+
+
+def find_ctor(db, owner, ptypes):
+    for cn, f in db['functions'].items():
+        if f.get('kind') == 'ctor' and f.get('owner') == owner and not f.get('error') and [p['ctype'] for p in f['params']] == ptypes:
+            return cn
+    return None
+
+
+def denom_lattice(t):
+    b = t.bits
+    vals = [1, 2, 3, 5, 7, 10, 641, 1 << (b - 1), (1 << (b - 1)) + 1, (1 << (b - 1)) - 1, (1 << b) - 1, (1 << b) - 2, 1 << (b // 2), (1 << (b // 2)) + 1]
+    if t.signed:
+        vals += [(1 << b) - 3, (1 << b) - 7, (1 << b) - 10, (1 << b) - (1 << (b // 2))]
+    return sorted(set(v & ((1 << b) - 1) for v in vals if v & ((1 << b) - 1)))
+
+
+@family
+def f_denominator(c):
+    S = c.S
+    fn = c.fn
+    # ---- constructors: no trap for any non-zero divisor, value() == d
+    if c.kind == 'ctor' and fn.get('owner', '').startswith('Denom_') and len(c.P) == 1:
+        di = denom_info(fn['owner'], S)
+        if not di:
+            return None
+        t, el, vec = di
+        pct = c.P[0]['ctype']
+        if pct == t.ct:       # from the divisor (scalar or vector)
+            req = ['%s != 0' % t.lane(c.a(0), i) for i in range(t.W)]
+            ens = [('value() reports the divisor, lane %d' % i, '%s == %s' % (t.lane('(%s).d' % RV, i), t.lane(c.a(0), i))) for i in range(t.W)]
+            k = Contract('denom_ctor', ['C14'] if not vec else ['C15'], requires=req, ensures=ens, cxx='%s({0})' % ('avel::Denominator<%s>' % t.cxx()), flags=['div'])
+            return k
+        return None
+    # ---- div / operator/ / operator% (friends) and value()
+    if c.kind == 'function' and c.name in ('div', 'operator/', 'operator%') and len(c.P) == 2 and c.P[1]['ctype'].startswith('Denom_') and not c.P[1]['ref']:
+        di = denom_info(c.P[1]['ctype'], S)
+        if not di:
+            return None
+        t, el, vec = di
+        if c.PT[0].ct != t.ct or c.P[0]['ref']:
+            return None
+        n, dn = c.a(0), c.a(1)
+        dq, dr = ('spec_sdiv', 'spec_srem') if t.signed else ('spec_udiv', 'spec_urem')
+        dl = lambda i: t.lane('(%s).d' % dn, i)
+        ens = []
+        for i in range(t.W):
+            g = 'spec_div_defined(%s, %s, %d, %d)' % (t.lane(n, i), dl(i), t.bits, t.signed)
+            if c.name == 'div':
+                ens.append(('div quot lane %d' % i, '!%s || %s == %s(%s, %s, %d)' % (g, t.lane('(%s).quot' % RV, i), dq, t.lane(n, i), dl(i), t.bits)))
+                ens.append(('div rem lane %d' % i, '!%s || %s == %s(%s, %s, %d)' % (g, t.lane('(%s).rem' % RV, i), dr, t.lane(n, i), dl(i), t.bits)))
+            else:
+                sp = dq if c.name == 'operator/' else dr
+                ens.append(('%s lane %d' % (c.name, i), '!%s || %s == %s(%s, %s, %d)' % (g, t.lane(RV, i), sp, t.lane(n, i), dl(i), t.bits)))
+        cxx = 'avel::div({0}, {1})' if c.name == 'div' else '({0} %s {1})' % c.name[8:]
+        # scalar denominators: the property excludes n == MIN with d == -1 altogether (no result is specified there)
+        req = ['spec_div_defined(%s, %s, %d, %d)' % (t.lane(n, 0), dl(0), t.bits, t.signed)] if t.W == 1 and not vec else []
+        k = Contract('denom_' + c.name, ['C14'] if not vec else ['C15'], requires=req, ensures=ens, cxx=cxx, flags=['div'])
+        ctor = find_ctor(c.db, c.P[1]['ctype'], [t.ct])
+        if not ctor:
+            return None
+        k.extra_roots = [ctor]
+        k.denom = {'t': t, 'vec': vec, 'ctor': ctor, 'dct': c.P[1]['ctype'], 'nct': t.ct}
+        if t.bits > 8:
+            k.partial = 'one obligation per divisor d of the lattice {%s} (mod 2^%d)%s; all numerators' % (
+                ', '.join(str(v) for v in denom_lattice(t)), t.bits, ', every lane dividing by d, plus one obligation with a different lattice divisor in every lane' if vec else '')
+        # broadcast construction Denominator<vec>(Denominator<T>(d))
+        if vec:
+            sct = 'Denom_' + el
+            bc = find_ctor(c.db, c.P[1]['ctype'], [sct])
+            sc = find_ctor(c.db, sct, [ELEM[el][2]])
+            if bc and sc:
+                k.denom['broadcast'] = (bc, sc)
+                k.extra_roots += [bc, sc]
+        return k
+    if c.kind == 'method' and c.name == 'value' and fn.get('owner', '').startswith('Denom_') and not c.P:
+        di = denom_info(fn['owner'], S)
+        if not di:
+            return None
+        t, el, vec = di
+        ens = [('value() lane %d' % i, '%s == %s' % (t.lane(RV, i), t.lane('(*this).d', i))) for i in range(t.W)]
+        return Contract('denom_value', ['C14'] if not vec else ['C15'], ensures=ens, cxx='{this}.value()')
+    return None
+
+
+def denom_variants(k, tier):
+    """expand a denominator div contract into obligations: (harness lines building the denominator, label)"""
+    import copy
+    d = k.denom
+    t = d['t']
+    lat = denom_lattice(t)
+    quick = {3, 10, (1 << (t.bits - 1)) + 1, (1 << t.bits) - 1, 1, 1 << (t.bits - 1)}
+    out = []
+
+    def mk(label, dexprs, via_broadcast=False):
+        c = copy.copy(k)
+        sct = ELEM[t.elem][2]
+        pre = ['%s a0;' % d['nct']]
+        if d['vec']:
+            if via_broadcast:
+                bc, sc = d['broadcast']
+                pre += ['%s a1 = %s(%s((%s)%s));' % (d['dct'], bc, sc, sct, dexprs[0])]
+            else:
+                pre += ['%s dv;' % d['nct']]
+                rep = T(d['nct'], {d['nct']: [('content', t.repr)]}).repr
+                if rep in ('m128', 'm256', 'm512'):
+                    pre += ['dv.content = (%s){{0}};' % rep] + ['AVM_S%d(dv.content, %d, %s);' % (t.bits, i, dexprs[i % len(dexprs)]) for i in range(t.W)]
+                else:
+                    pre += ['dv.content = (%s)%s;' % (sct, dexprs[0])]
+                pre += ['%s a1 = %s(dv);' % (d['dct'], d['ctor'])]
+        else:
+            pre += ['%s a1 = %s((%s)%s);' % (d['dct'], d['ctor'], sct, dexprs[0])]
+        c.harness = {'pre': pre, 'args': ['a0', 'a1']}
+        c.part = label
+        return c
+
+    if t.bits <= 8:
+        # all divisors: symbolic d != 0
+        c = mk('all d', ['d_in'])
+        c.harness['pre'] = ['uint%d_t d_in = nondet_u%d();' % (8, 8), '__CPROVER_assume(d_in != 0);'] + c.harness['pre']
+        c.partial = None
+        out.append(c)
+        if d['vec'] and d.get('broadcast'):
+            c = mk('all d, broadcast from scalar Denominator', ['d_in'], via_broadcast=True)
+            c.harness['pre'] = ['uint8_t d_in = nondet_u8();', '__CPROVER_assume(d_in != 0);'] + c.harness['pre']
+            c.partial = None
+            out.append(c)
+        return out
+    for v in lat:
+        if tier == 'quick' and v not in quick:
+            continue
+        out.append(mk('d=%d' % v, ['%dull' % v]))
+        if d['vec'] and d.get('broadcast') and (tier != 'quick' or v in (10, (1 << t.bits) - 1, 1)):
+            out.append(mk('d=%d broadcast from scalar Denominator' % v, ['%dull' % v], via_broadcast=True))
+    if d['vec'] and t.W > 1:
+        out.append(mk('different divisor per lane', ['%dull' % v for v in lat]))
+    return out
+
+
 def contract_for(fn, db):
     if fn.get('error'):
         return None
@@ -1138,6 +1296,8 @@ PROPERTY_NAMES = {
     'C11': {'ceil', 'floor', 'trunc', 'round', 'nearbyint', 'rint'},
     'C12': {'frexp', 'ldexp', 'scalbn', 'ilogb', 'logb', 'frac', 'fmax', 'fmin', 'fdim'},
     'C13': {'fpclassify', 'isnan', 'isinf', 'isfinite', 'isnormal', 'signbit', 'isgreater', 'isgreaterequal', 'isless', 'islessequal', 'islessgreater', 'isunordered'},
+    'C14': {'Denominator', 'value'},
+    'C15': {'Denominator', 'value'},
     'C08': {'load', 'aligned_load', 'store', 'aligned_store', 'gather', 'scatter', 'to_array', 'extract', 'insert'},
     'C09': {'load', 'aligned_load', 'store', 'aligned_store', 'gather', 'scatter'},
     'C07': {'blend', 'keep', 'clear', 'negate', 'min', 'max', 'minmax', 'clamp', 'abs', 'neg_abs', 'average', 'midpoint', 'copysign'},
